@@ -110,7 +110,8 @@ CLAIMED = {
             'Kernel-checked: for every program (any calls, shared aliases, nested interceptions, data handlers) satisfying the '
             'property\'s premises (inputs are functions of their key, lawful handlers, no play_data in the control flow), a '
             'saved complete recording fetched with equal data replays to the same result with playback outputs = recorded outputs '
-            'in call order and no body executed. Partial: worker threads inside the operation are not covered by a theorem.',
+            'in call order and no body executed. Partial: worker threads inside the operation are not covered by a theorem; the '
+            'tie records and replays threaded operations under scheduler-chosen interleavings.',
             'Trusted: Lean kernel; recorder model tied by differential execution; values opaque (serialisation faithfulness is '
             'C06/C07; known finding K7 on shared references); cassette round trip is a hypothesis discharged by C07.',
             'DESIGN.md 6/C01'),
